@@ -16,6 +16,8 @@
        C17_no_null_in_plain_dtype: with exact null counts (C04) no NULL cell exists.
      - C17_counts: count() = number of rows of the concatenated row groups, for every list of row groups.
      - C17_categories / C17_categories_refused: which fields a `categories` request turns into 'category'.
+     - C17_frame_columns / C17_default_index: the frame's columns are the wanted columns that are not index levels,
+       in order; the default index is the stored non-range index entries.
      - C17_written_dtype_roundtrip / C17_decode_consistent (finite, by computation on the tables).
    Full statement that is NOT proved (pandas is outside the model): for every file f and option tuple o,
    observe(handle f o) = observe(to_pandas f o) for columns, dtypes, categories, index, counts.               *)
@@ -108,6 +110,20 @@ Theorem C17_categories_refused : forall categ nrg cs c,
   In c cs -> ~ In c categ -> (1 < nrg)%N -> check_categories true categ nrg (Some cs) = None.
 Proof. exact check_categories_refuses. Qed.
 Print Assumptions C17_categories_refused.
+
+(* which columns the frame has and which fields become its index *)
+Theorem C17_frame_columns : forall cols cats request idx,
+  let want := match request with Some l => l | None => cols ++ cats end in
+  frame_columns cols cats request idx = filter (fun c => negb (memb c idx)) want /\
+  (forall c, In c (frame_columns cols cats request idx) <-> In c want /\ ~ In c idx) /\
+  (forall c, In c want -> In c (frame_columns cols cats request idx) \/ In c idx).
+Proof. exact frame_columns_spec. Qed.
+Print Assumptions C17_frame_columns.
+
+Theorem C17_default_index : forall stored n,
+  In n (get_index stored INone) <-> In (n, false) stored.
+Proof. exact get_index_default. Qed.
+Print Assumptions C17_default_index.
 
 Theorem C17_written_dtype_roundtrip : written_roundtrip_ok pinned pinned_w_typemap = true.
 Proof. exact written_roundtrip_pinned. Qed.
